@@ -107,7 +107,7 @@ CHECKS = {
          "3/C12", "CFG-X"),
  "C20": ("model_checking",
          "preemption-bounded stateless DFS over thread interleavings of real generated code and a sync-shimmed copy of the pinned runtime (cooperative scheduler), plus a separate free-running -race pass",
-         "16 collision-forcing drivers x 3 threads: every interleaving with <=2 preemptions (quick, ~210k complete executions) / <=3 preemptions and 2-operation threads (thorough, time-capped and reported) with scheduling points before every Mutex.Lock, RWMutex.RLock/Lock, Once.Do of the runtime and before every statement of generated code; each execution must not deadlock and must return exactly the sequential run's canonical object graphs and counters (each shared service / parameter built once, contextual instances per context). The same bodies run free on the real sync package under -race (16 goroutines x 200 rounds).",
+         "17 collision-forcing drivers x 3 threads: every interleaving with <=2 preemptions (quick, ~210k complete executions) / <=3 preemptions and 2-operation threads (thorough, time-capped and reported) with scheduling points before every Mutex.Lock, RWMutex.RLock/Lock, Once.Do of the runtime and before every statement of generated code; each execution must not deadlock and must return exactly the sequential run's canonical object graphs and counters (each shared service / parameter built once, contextual instances per context). The same bodies run free on the real sync package under -race (16 goroutines x 200 rounds).",
          "trusted: the scheduler and shim (RWMutex with writer preference); accesses below statement / sync-operation granularity are left to the race detector pass",
          "3/C20", "SCHED-X"),
 }
